@@ -121,12 +121,22 @@ Definition parse_funnel (st : stage) (x : pyexc) : pyexc :=
   let x1 := match st with SVisit => visit_wrap x | _ => x end in
   match x1 with
   | XParse => XInvalid                    (* DSDLSyntaxError *)
+  | XRecursion => XInvalid                (* DSDLSyntaxError "nested too deeply" (repair F17); not reached from SVisit *)
   | XVisitation => XInternalError
   | y => y
   end.
 
-(* DSDLDefinition.read and _read_definitions: same shape; returns the exception and whether a path is attached *)
-Definition read_funnel (x : pyexc) : pyexc * bool :=
+(* DSDLDefinition.read: returns the exception and whether a path is attached *)
+Definition definition_funnel (x : pyexc) : pyexc * bool :=
+  if is_error x then (x, true)
+  else match x with
+       | XUnicodeDecode => (XInvalid, true)      (* the file is not UTF-8 (repair F19) *)
+       | XMemoryOrSystem => (x, false)
+       | _ => (XInternalError, true)
+       end.
+
+(* the try/except around target_definition.read(...) in _read_definitions *)
+Definition reader_funnel (x : pyexc) : pyexc * bool :=
   if is_error x then (x, true)
   else match x with
        | XMemoryOrSystem => (x, false)
@@ -136,15 +146,19 @@ Definition read_funnel (x : pyexc) : pyexc * bool :=
 Definition outcome_of (x : pyexc) : outcome :=
   match x with XInvalid => OInvalid | XInternalError => OInternal | _ => OOther end.
 
-(* an exception x raised at stage st while a definition is read *)
+(* an exception x raised at stage st of _parser.parse while a definition is read *)
 Definition surfaced (st : stage) (x : pyexc) : outcome * bool :=
-  let (y, p) := read_funnel (parse_funnel st x) in
-  let (z, p') := read_funnel y in (outcome_of z, p || p').
+  let (y, p) := definition_funnel (parse_funnel st x) in
+  let (z, p') := reader_funnel y in (outcome_of z, p || p').
 
 (* an exception raised outside _parser.parse but inside DSDLDefinition.read (reading the file, finalize) *)
 Definition surfaced_outside_parser (x : pyexc) : outcome * bool :=
-  let (y, p) := read_funnel x in
-  let (z, p') := read_funnel y in (outcome_of z, p || p').
+  let (y, p) := definition_funnel x in
+  let (z, p') := reader_funnel y in (outcome_of z, p || p').
+
+(* an exception raised in the body of _read_definitions / read_namespace outside every try block
+   (e.g. hashing the freshly built composite when it is added to the result set) *)
+Definition surfaced_outside_funnel (x : pyexc) : outcome * bool := (outcome_of x, false).
 
 (* ---- outcome predicted for an expression statement from the evaluation model of C04 ---- *)
 (* the set of outcome classes the model allows for a definition whose only fallible part is the expression *)
